@@ -1025,16 +1025,18 @@ sproof!(c15_align_sig_v6, 10, { c15_version_alignment(true) });
 
 /// signing side: sign() refuses a config whose version does not match the key version
 fn c15_sign_alignment(sig_v6: bool) {
-    let kvb: u8 = kani::any();
-    kani::assume(kvb == 4 || kvb == 6);
-    kani::assume((kvb == 6) != sig_v6); // only the mismatching pairs: sign() must fail (and drops nothing stack-backed)
-    let kv = if kvb == 6 { KeyVersion::V6 } else { KeyVersion::V4 };
+    // only the mismatching pair (concrete: a symbolic key version made the failing path too expensive)
+    let kv = if sig_v6 { KeyVersion::V4 } else { KeyVersion::V6 };
     let salt = SALT16;
-    let cfg = if sig_v6 {
+    let mut cfg = if sig_v6 {
         SignatureConfig::v6_with_salt(SignatureType::Binary, PublicKeyAlgorithm::RSA, HashAlgorithm::Sha256, salt.to_vec())
     } else {
         SignatureConfig::v4(SignatureType::Binary, PublicKeyAlgorithm::RSA, HashAlgorithm::Sha256)
     };
+    let mut hstore = core::mem::MaybeUninit::<[Subpacket; 1]>::uninit();
+    cfg.hashed_subpackets = stack_vec_empty!(hstore, Subpacket);
+    let mut ustore = core::mem::MaybeUninit::<[Subpacket; 1]>::uninit();
+    cfg.unhashed_subpackets = stack_vec_empty!(ustore, Subpacket);
     let key = MockKey::<4>::new(kv, kani::any(), 7);
     let doc = [1u8, 2];
     let r = okf(cfg.sign(&*key, &Password::empty(), &doc[..]));
